@@ -147,17 +147,29 @@ def run_bmc(rep, core, name, N, modes, inits, oblig, replay_fn, delivery="list",
 
 def handle_cex(rep, hn, ex, replay_fn, limit=40, ideal=False):
     seen = 0
+    confirmed = 0
+    import time as _time
+    t0 = _time.time()
     for r in ex.results:
         if r["status"] != "cex":
             continue
         seen += 1
-        if seen > limit:
+        if seen > limit or confirmed >= 3 or _time.time() - t0 > 90:
             break
         c = r.get("cex")
         if c is None:
             rep.harness_errors.append("%s: counterexample path without model (%s)" % (hn, r.get("failing")))
             continue
-        fails = replay_fn(c)
+        from ..engine import _arm, PathBudget
+        try:
+            _arm(10)
+            try:
+                fails = replay_fn(c)
+            finally:
+                _arm(0)
+        except PathBudget:
+            fails = [("%s: the real code does not terminate on the replayed input" % rep.prop,
+                      "replay of %s did not finish within 10 s on the unmodified package" % (c,))]
         rep.replays_validated += 1
         if not fails and ideal:
             rep.artefacts.append({"harness": hn, "model": c, "failing": r.get("failing"),
@@ -166,6 +178,7 @@ def handle_cex(rep, hn, ex, replay_fn, limit=40, ideal=False):
         if not fails:
             rep.harness_errors.append("%s: solver model did not reproduce on the real code: %s failing=%s" % (hn, c, r.get("failing")))
             continue
+        confirmed += 1
         for key, what in fails:
             rep.add_violation(key, what, c)
 
